@@ -27,12 +27,16 @@ def NumText.wf (t : NumText) : Bool :=
   (match t.fp with | none => true | some f => allDigits f && !f.isEmpty) &&
   (match t.exp with | none => true | some (_, _, d) => allDigits d && !d.isEmpty)
 
-def NumText.render (t : NumText) : Bytes :=
-  (if t.neg then [45] else []) ++ t.ip ++
-  (match t.fp with | none => [] | some f => 46 :: f) ++
-  (match t.exp with
-   | none => []
-   | some (up, sg, d) => (if up then 69 else 101) :: ((match sg with | none => [] | some true => [45] | some false => [43]) ++ d))
+def signBytes (t : NumText) : Bytes := if t.neg then [45] else []
+def fracBytes (t : NumText) : Bytes := match t.fp with | none => [] | some f => 46 :: f
+def expSign (sg : Option Bool) : Bytes := match sg with | none => [] | some true => [45] | some false => [43]
+def expBytes (t : NumText) : Bytes :=
+  match t.exp with
+  | none => []
+  | some (up, sg, d) => (if up then 69 else 101) :: (expSign sg ++ d)
+
+/-- the text: `[-] int [. frac] [e|E [+|-] digits]` -/
+def NumText.render (t : NumText) : Bytes := signBytes t ++ (t.ip ++ (fracBytes t ++ expBytes t))
 
 /-- all digits of the mantissa, as a natural number -/
 def NumText.mant (t : NumText) : Nat := digitsVal (t.ip ++ t.fp.getD [])
@@ -46,6 +50,12 @@ def NumText.expVal (t : NumText) : Int :=
   | none => 0
   | some (_, some true, d) => -(digitsVal d : Int)
   | some (_, _, d) => digitsVal d
+
+/-- the byte behind the number text does not continue it -/
+def Stops (rest : Bytes) : Bool :=
+  match rest with
+  | [] => true
+  | c :: _ => !isDigit c && c != 46 && c != 101 && c != 69
 
 /-- what a plain decimal string `[-] digits [. digits]` denotes: sign, all digits as a number, number of fraction digits;
     `none` when the string is not of that form (in particular when it has an exponent, or is `.`, `1.`, `10.20` is fine) -/
